@@ -277,12 +277,15 @@ fn integer(src: &[u8], i: usize, end: usize) -> (u8, u8, u128, u8) {
             j += 1;
         } else if h != 255 && (h as u128) < radix {
             ndigits += 1;
+            // E140 is "too big to parse": a literal is too big iff its VALUE needs more than 128 bits, whatever the
+            // radix; leading zeros do not make it bigger (the first-generation lexer and the 0x branch agree)
             if radix == 2 {
-                // at most 128 binary digits, leading zeros included
-                if ndigits > 128 {
+                if (value >> 127) != 0 {
                     too_big = true;
+                    value = 0;
+                } else {
+                    value = (value << 1) | (h as u128);
                 }
-                value = (value << 1) | (h as u128);
             } else {
                 match value.checked_mul(radix) {
                     Some(v) => match v.checked_add(h as u128) {
